@@ -92,7 +92,7 @@ End SchedFacts.
 (* 2. ConcurrentStreamTestSuite                                                             *)
 (* ====================================================================================== *)
 Definition qowner (q : qitem) : nat :=
-  match q with QToken w | QStart w | QStop w | QStatus w _ _ _ => w end.
+  match q with QToken w | QStart w | QStop w | QStatus w _ _ _ _ => w end.
 Definition fw (w : nat) (l : list qitem) : list qitem := filter (fun q => qowner q =? w) l.
 Definition putsq (tr : list (tid * cev)) : list qitem :=
   flat_map (fun e => match snd e with CPut q => [q] | _ => [] end) tr.
@@ -100,7 +100,7 @@ Definition gotten (tr : list (tid * cev)) : list qitem :=
   flat_map (fun e => match snd e with CGet q => [q] | _ => [] end) tr.
 Definition stopsq (l : list qitem) : list nat :=
   flat_map (fun q => match q with QStop w => [w] | _ => [] end) l.
-Definition to3 (x : nat * nat * option nat * bool * bool) : nat * nat * option nat := fst (fst x).
+Definition to3 (x : nat * nat * option nat * tstamp * bool) : nat * nat * option nat * tstamp := fst x.
 
 Lemma fw_app w a b : fw w (a ++ b) = fw w a ++ fw w b.
 Proof. apply filter_app. Qed.
@@ -144,13 +144,13 @@ Proof. rewrite forallb_app. simpl. rewrite andb_true_r. reflexivity. Qed.
 (* what a worker puts *)
 Lemma emits_owner w base s : Forall (fun q => qowner q = w) (emits w base s).
 Proof.
-  induction s as [|[id st own|] r IH]; simpl; [constructor | constructor; [reflexivity | exact IH] |].
+  induction s as [|[id st own a|] r IH]; simpl; [constructor | constructor; [reflexivity | exact IH] |].
   destruct base; repeat constructor.
 Qed.
 Lemma emits_nostop w base s : stopsq (emits w base s) = [].
-Proof. induction s as [|[id st own|] r IH]; simpl; [reflexivity | exact IH | destruct base; reflexivity]. Qed.
+Proof. induction s as [|[id st own a|] r IH]; simpl; [reflexivity | exact IH | destruct base; reflexivity]. Qed.
 Lemma emits_length w base s : length (emits w base s) <= length s + 2.
-Proof. induction s as [|[id st own|] r IH]; simpl; [lia | lia | destruct base; simpl; lia]. Qed.
+Proof. induction s as [|[id st own a|] r IH]; simpl; [lia | lia | destruct base; simpl; lia]. Qed.
 Lemma worker_puts_owner w base s : Forall (fun q => qowner q = w) (worker_puts w base s).
 Proof.
   unfold worker_puts. constructor; [reflexivity|]. apply Forall_app. split; [apply emits_owner | repeat constructor].
@@ -277,11 +277,10 @@ Section Stream.
     sv_fifo : forall w, fw w (gotten (s_log c) ++ s_queue c) = fw w (putsq (s_log c));
     sv_qown : Forall (fun q => qowner q < length (s_workers c)) (gotten (s_log c) ++ s_queue c);
     sv_deliv : forall w, map to3 (delivered w (s_log c)) ++ ev_of (fw w (pend_status c)) = ev_of (fw w (gotten (s_log c)));
-    sv_ts : forall w, forallb (fun x => snd (fst x)) (delivered w (s_log c)) = true;
     sv_joins : joins (s_log c) ++ pend_join c = stopsq (gotten (s_log c));
     sv_nostops : main_stops (s_log c) = [];
     sv_pend : match s_main c with
-              | SMStatus q => exists w id st own, q = QStatus w id st own /\ w < length (s_workers c)
+              | SMStatus q => exists w id st own ts, q = QStatus w id st own ts /\ w < length (s_workers c)
               | SMJoin w => w < length (s_workers c)
               | _ => True
               end;
@@ -335,7 +334,6 @@ Section Stream.
       + rewrite HL; exact Hsp.
       + rewrite HL; exact Hq.
       + intro w. rewrite Hd, Hg. reflexivity.
-      + intro w. rewrite Hd. reflexivity.
       + rewrite Hj, Hg. reflexivity.
       + unfold raise_expected, mt_raises. fold n. rewrite Emt, Hi, Hs.
         replace (k <=? n) with true by (symmetry; apply Nat.leb_le; exact Hkn). simpl.
@@ -352,7 +350,6 @@ Section Stream.
         * rewrite HL; exact Hsp.
         * rewrite HL; exact Hq.
         * intro w. rewrite Hd, Hg. reflexivity.
-        * intro w. rewrite Hd. reflexivity.
         * rewrite Hj, Hg. reflexivity.
         * repeat split; auto.
         * rewrite Hg, HL. simpl. rewrite unreaped_of_nil. repeat split; assumption.
@@ -370,7 +367,6 @@ Section Stream.
           -- rewrite HL; exact Hsp.
           -- rewrite HL; exact Hq.
           -- intro w. rewrite Hd, Hg. reflexivity.
-          -- intro w. rewrite Hd. reflexivity.
           -- rewrite Hj, Hg. reflexivity.
           -- unfold raise_expected. rewrite Hnr, Hi, Hs. simpl. rewrite map_length. repeat split; try lia.
              ++ destruct (s_workers c); [reflexivity | simpl in HL; lia].
@@ -379,7 +375,6 @@ Section Stream.
           -- rewrite HL; exact Hsp.
           -- rewrite HL; exact Hq.
           -- intro w. rewrite Hd, Hg. reflexivity.
-          -- intro w. rewrite Hd. reflexivity.
           -- rewrite Hj, Hg. reflexivity.
           -- repeat split; auto; try lia. rewrite Eu; discriminate.
           -- rewrite Hg, HL. simpl. rewrite unreaped_of_nil, <- Hu, Eu. repeat split; auto.
@@ -407,7 +402,7 @@ Section Stream.
     intros HI. unfold sstep_worker. destruct (nth_error (s_workers c) w) as [[|q todo]|] eqn:Hn; try discriminate.
     intro H; injection H as <-.
     destruct (worker_put_owner c w q todo HI Hn) as [Hq Hw].
-    pose proof HI as [Hle Hsp Hown Hwk Hfifo Hqo Hdl Hts Hjo Hns Hps Hph Hrun].
+    pose proof HI as [Hle Hsp Hown Hwk Hfifo Hqo Hdl Hjo Hns Hps Hph Hrun].
     constructor; simpl; rewrite ?length_upd; try assumption.
     all: try (rd; exact Hns).
     - rd. exact Hsp.
@@ -422,7 +417,6 @@ Section Stream.
     - intro v. rd. rewrite app_assoc, fw_app, Hfifo, <- fw_app. reflexivity.
     - rd. rewrite app_assoc. apply Forall_app. split; [exact Hqo|]. constructor; [lia | constructor].
     - intro v. rd. exact (Hdl v).
-    - intro v. rd. exact (Hts v).
     - rd. exact Hjo.
     - destruct (s_main c); rd; try exact Hph.
       unfold raise_expected in *. rd. exact Hph.
@@ -447,7 +441,7 @@ Section Stream.
   Proof.
     intros HI Em. unfold sstep_main. rewrite Em.
     destruct (nth_error (si_suites i) j) as [s|] eqn:Es; [|discriminate]. intro H; injection H as <-.
-    pose proof HI as [Hle Hsp Hown Hwk Hfifo Hqo Hdl Hts Hjo Hns Hps Hph Hrun].
+    pose proof HI as [Hle Hsp Hown Hwk Hfifo Hqo Hdl Hjo Hns Hps Hph Hrun].
     rewrite Em in Hph, Hrun. destruct Hph as (Hj & HjK & Hg). destruct Hrun as (Hr & Hst & Hi & Hsr & Hu).
     assert (Hjn : j < n) by (apply nth_error_Some; congruence).
     assert (Hfj : fw j (putsq (s_log c)) = []).
@@ -483,7 +477,7 @@ Section Stream.
   Lemma sstep_get_inv c c' : SInv c -> s_main c = SMGet -> sstep_main i c = Some c' -> SInv c'.
   Proof.
     intros HI Em. unfold sstep_main. rewrite Em.
-    pose proof HI as [Hle Hsp Hown Hwk Hfifo Hqo Hdl Hts Hjo Hns Hps Hph Hrun].
+    pose proof HI as [Hle Hsp Hown Hwk Hfifo Hqo Hdl Hjo Hns Hps Hph Hrun].
     rewrite Em in Hph, Hrun. destruct Hph as (HwK & HKn & Hmt & Hune). destruct Hrun as (Hr & Hst & Hi & Hsr & Hu).
     unfold pend_status, pend_join in *. rewrite Em in Hdl, Hjo. rewrite app_nil_r in Hjo.
     assert (Hdl' : forall w, map to3 (delivered w (s_log c)) = ev_of (fw w (gotten (s_log c))))
@@ -499,7 +493,6 @@ Section Stream.
       + intro w. rd. apply Hfifo.
       + rd. exact Hqo.
       + intro w. rd. apply Hdl'.
-      + intro w. rd. apply Hts.
       + unfold raise_expected. rd. rewrite map_length.
         repeat split; auto; try discriminate.
         * destruct (mt_raises n (si_mt_raise i)), (has_intr (s_log c)), (status_raised (s_log c)); reflexivity.
@@ -516,7 +509,6 @@ Section Stream.
       + rd. rewrite <- app_assoc. simpl. exact Hqo.
       + intro w. rd. rewrite fw_app, ev_of_app, <- Hdl'. f_equal.
         unfold pend_status. simpl. destruct q as [w0|w0|w0|w0 i0 s0 o0]; simpl; destruct (w0 =? w); reflexivity.
-      + intro w. rd. apply Hts.
       + rd. rewrite stopsq_app, <- Hjo. unfold pend_join. simpl. destruct q; simpl; rewrite ?app_nil_r; reflexivity.
       + destruct q; simpl in *; try exact I; try exact Hqlt. eauto 8.
       + destruct q; simpl; repeat split; auto.
@@ -528,12 +520,12 @@ Section Stream.
   Lemma sstep_status_inv c q c' : SInv c -> s_main c = SMStatus q -> sstep_main i c = Some c' -> SInv c'.
   Proof.
     intros HI Em. unfold sstep_main. rewrite Em.
-    pose proof HI as [Hle Hsp Hown Hwk Hfifo Hqo Hdl Hts Hjo Hns Hps Hph Hrun].
+    pose proof HI as [Hle Hsp Hown Hwk Hfifo Hqo Hdl Hjo Hns Hps Hph Hrun].
     rewrite Em in Hph, Hrun, Hps. destruct Hph as (HwK & HKn & Hmt & Hune). destruct Hrun as (Hr & Hst & Hi & Hsr & Hu).
-    destruct Hps as (w & id & st & own & -> & Hw).
+    destruct Hps as (w & id & st & own & ts & -> & Hw).
     unfold pend_status, pend_join in *. rewrite Em in Hdl, Hjo. rewrite app_nil_r in Hjo.
     intro H; injection H as <-.
-    assert (HD : forall v, map to3 (delivered v (s_log c) ++ (if w =? v then [(id, st, own, true, memb (s_mcalls c) (si_main_faults i))] else []))
+    assert (HD : forall v, map to3 (delivered v (s_log c) ++ (if w =? v then [(id, st, own, ts, memb (s_mcalls c) (si_main_faults i))] else []))
                  = ev_of (fw v (gotten (s_log c)))).
     { intro v. rewrite map_app, <- Hdl. f_equal. simpl. destruct (w =? v); reflexivity. }
     destruct (memb (s_mcalls c) (si_main_faults i)) eqn:Eb.
@@ -547,7 +539,6 @@ Section Stream.
       + intro v. rd. apply Hfifo.
       + rd. exact Hqo.
       + intro v. rd. rewrite ?app_nil_r. apply HD.
-      + intro v. rd. rewrite forallb_app, Hts. destruct (w =? v); reflexivity.
       + unfold raise_expected. rd. rewrite map_length.
         repeat split; auto; try discriminate.
         * destruct (mt_raises n (si_mt_raise i)), (has_intr (s_log c)), (status_raised (s_log c)); reflexivity.
@@ -561,7 +552,6 @@ Section Stream.
       + intro v. rd. apply Hfifo.
       + rd. exact Hqo.
       + intro v. rd. rewrite ?app_nil_r. apply HD.
-      + intro v. rd. rewrite forallb_app, Hts. destruct (w =? v); reflexivity.
       + repeat split; auto.
       + rd. repeat split; auto.
   Qed.
@@ -572,7 +562,7 @@ Section Stream.
     intros HI Em. unfold sstep_main. rewrite Em.
     destruct (nth_error (s_workers c) w) as [todo|] eqn:En; [|discriminate].
     destruct (sw_done todo) eqn:Ed; [|discriminate]. intro H; injection H as <-.
-    pose proof HI as [Hle Hsp Hown Hwk Hfifo Hqo Hdl Hts Hjo Hns Hps Hph Hrun].
+    pose proof HI as [Hle Hsp Hown Hwk Hfifo Hqo Hdl Hjo Hns Hps Hph Hrun].
     rewrite Em in Hph, Hrun, Hps. destruct Hph as (HwK & HKn & Hmt & _). destruct Hrun as (Hr & Hst & Hi & Hsr & Hu).
     unfold pend_status, pend_join in *. rewrite Em in Hdl, Hjo.
     assert (Hdl' : forall w, map to3 (delivered w (s_log c)) = ev_of (fw w (gotten (s_log c))))
@@ -588,7 +578,6 @@ Section Stream.
       + intro v. rd. apply Hfifo.
       + rd. exact Hqo.
       + intro v. rd. apply Hdl'.
-      + intro v. rd. apply Hts.
       + unfold raise_expected. rd. rewrite Hmt, Hi, Hsr. simpl. rewrite map_length. repeat split; auto.
         * rewrite forallb_map'. apply forallb_forall. intros todo' Hin. rewrite negb_involutive.
           apply In_nth_error in Hin as [v Hv].
@@ -605,7 +594,6 @@ Section Stream.
       + intro v. rd. apply Hfifo.
       + rd. exact Hqo.
       + intro v. rd. apply Hdl'.
-      + intro v. rd. apply Hts.
       + repeat split; auto. discriminate.
       + rd. repeat split; auto.
   Qed.
@@ -700,7 +688,7 @@ Section Stream.
     destruct (forallb sw_done (s_workers c)) eqn:Ew.
     - (* every worker has finished: main can move *)
       rewrite andb_true_r in Hnd. exists 0. split; [unfold snthr; lia|]. simpl.
-      pose proof HI as [Hle Hsp Hown Hwk Hfifo Hqo Hdl Hts Hjo Hns Hps Hph Hrun].
+      pose proof HI as [Hle Hsp Hown Hwk Hfifo Hqo Hdl Hjo Hns Hps Hph Hrun].
       unfold smain_done in Hnd. unfold sstep_main. destruct (s_main c) eqn:Em; try discriminate.
       + destruct Hph as (Hj & HjK & _).
         assert (Hkn : k < n) by (clear - HjK; unfold K, started in HjK; destruct (si_mt_raise i); lia).
@@ -719,7 +707,7 @@ Section Stream.
         apply filter_In in Hq as [Hq _]. apply in_app_or in Hq as [Hq|Hq].
         * apply stopsq_memb in Hq. rewrite Hq in Hnot. discriminate.
         * destruct (s_queue c); [contradiction | discriminate].
-      + destruct Hps as (w & id & st & own & -> & _). discriminate.
+      + destruct Hps as (w & id & st & own & ts & -> & _). discriminate.
       + destruct (nth_error (s_workers c) w) as [todo|] eqn:En; [|apply nth_error_None in En; lia].
         rewrite forallb_forall in Ew. rewrite (Ew _ (nth_error_In _ _ En)). discriminate.
     - (* a worker has something to put *)
@@ -741,10 +729,30 @@ Section Stream.
 End Stream.
 
 (* ---- the stream model meets the statement ---- *)
+Lemma tstamp_eqb_refl t : tstamp_eqb t t = true.
+Proof. destruct t; simpl; try reflexivity. apply Nat.eqb_refl. Qed.
+
 Lemma ev3_eqb_refl x : ev3_eqb x x = true.
 Proof.
-  destruct x as [[a b] o]. unfold ev3_eqb. simpl. rewrite !Nat.eqb_refl. simpl.
-  destruct o; simpl; [apply Nat.eqb_refl | reflexivity].
+  destruct x as [[[a b] o] t]. unfold ev3_eqb. simpl. rewrite !Nat.eqb_refl, tstamp_eqb_refl. simpl.
+  destruct o; simpl; [rewrite Nat.eqb_refl; reflexivity | reflexivity].
+Qed.
+
+(* whatever a worker emits carries a timestamp: TimestampingStreamResult stamps what has none *)
+Lemma emits_has_ts w base s : Forall (fun e : nat * nat * option nat * tstamp => has_ts (snd e) = true) (ev_of (emits w base s)).
+Proof.
+  induction s as [|[id st own a|] r IH]; simpl.
+  - constructor.
+  - constructor; [destruct a; reflexivity | exact IH].
+  - destruct base; simpl; repeat constructor.
+Qed.
+
+Lemma prefix_has_ts (d : list (nat * nat * option nat * tstamp * bool)) rest l :
+  map to3 d ++ rest = l -> Forall (fun e : nat * nat * option nat * tstamp => has_ts (snd e) = true) l ->
+  forallb (fun x => has_ts (snd (fst x))) d = true.
+Proof.
+  intros <- H. apply Forall_app in H as [H _]. apply forallb_forall. intros x Hx.
+  rewrite Forall_forall in H. apply (H (to3 x)). apply in_map. exact Hx.
 Qed.
 
 Lemma is_prefix_app {A} (eqb : A -> A -> bool) (Hr : forall x, eqb x x = true) a b : is_prefix eqb a (a ++ b) = true.
@@ -763,7 +771,7 @@ Proof. unfold worker_puts. simpl. rewrite ev_of_app. simpl. apply app_nil_r. Qed
 Theorem stream_meets_spec : forall i, spec_okb (IStream i) (model (IStream i)) = true.
 Proof.
   intro i. destruct (srun_inv i) as [HI Hd]. unfold spec_okb, model. set (c := srun i) in *.
-  pose proof HI as [Hle Hsp Hown Hwk Hfifo Hqo Hdl Hts Hjo Hns Hps Hph Hrun].
+  pose proof HI as [Hle Hsp Hown Hwk Hfifo Hqo Hdl Hjo Hns Hps Hph Hrun].
   unfold sall_done in Hd. apply andb_true_iff in Hd as [Hmd Hwd].
   unfold smain_done in Hmd. destruct (s_main c) eqn:Em; try discriminate.
   destruct Hph as (Hr & Hst & Hlive & HwK & Hnr).
@@ -791,9 +799,12 @@ Proof.
     destruct (Hwk w _ Enw) as (s' & Hs' & E). rewrite Hn in Hs'. injection Hs' as <-. rewrite app_nil_r in E.
     assert (Hsplit : ev_of (fw w (gotten (s_log c))) ++ ev_of (fw w (s_queue c)) = ev_of (emits w (si_base i) s)).
     { rewrite <- ev_of_app, <- fw_app, Hfifo, E. apply ev_of_worker_puts. }
-    unfold stream_worker_okb. rewrite Hts. simpl.
     specialize (Hdl w). simpl in Hdl. rewrite app_nil_r in Hdl.
-    change (map (fun x => fst (fst x)) (delivered w (s_log c))) with (map to3 (delivered w (s_log c))).
+    assert (Hts : forallb (fun x => has_ts (snd (fst x))) (delivered w (s_log c)) = true).
+    { apply (prefix_has_ts _ (ev_of (fw w (s_queue c))) (ev_of (emits w (si_base i) s))); [|apply emits_has_ts].
+      rewrite Hdl. exact Hsplit. }
+    unfold stream_worker_okb. rewrite Hts. simpl.
+    change (map (fun x => fst x) (delivered w (s_log c))) with (map to3 (delivered w (s_log c))).
     rewrite Hdl, <- Hsplit. rewrite (is_prefix_app _ ev3_eqb_refl). simpl.
     destruct (s_raised c) eqn:Er; [reflexivity|]. simpl.
     destruct (Hnr eq_refl) as [_ Hun].
